@@ -5,6 +5,7 @@ import (
 	"encoding/json"
 	"go/ast"
 	"go/token"
+	"go/types"
 	"sort"
 	"sync"
 
@@ -286,6 +287,27 @@ func KnownFunction(fn *ssa.Function) bool {
 	frozenOnce.Do(loadFrozen)
 	_, ok := frozen[FuncString(fn)]
 	return ok
+}
+
+// TypeString is the rendering of a type used in terms and in the type table.
+func TypeString(t types.Type) string { return typeName(t) }
+
+// KnownType: the named type existed on the tree the rule tables were written
+// against (listed under "#types" in names.json).  Without a type table every
+// type counts as known.
+func KnownType(t types.Type) bool {
+	frozenOnce.Do(loadFrozen)
+	tt, ok := frozen["#types"]
+	if !ok {
+		return true
+	}
+	n := typeName(t)
+	for _, k := range tt.Sig {
+		if k == n {
+			return true
+		}
+	}
+	return false
 }
 
 // FreeKnown: the captured variable has a partner in the frozen table (or the
